@@ -194,7 +194,7 @@ func (p *parser) qualIdent() string {
 
 var clauseKeywords = map[string]bool{
 	"requires": true, "ensures": true, "modifies": true, "decreases": true, "loop": true, "ghost": true,
-	"props": true, "inline": true, "pure": true, "assumed": true, "refines": true, "dyncall": true,
+	"props": true, "inline": true, "pure": true, "assumed": true, "refines": true, "dyncall": true, "funcparam": true,
 	"calluse": true, "bind": true, "free": true, "nosafety": true, "let": true, "invariant": true,
 	"func": true, "extern": true, "sort": true, "const": true, "fun": true, "pred": true, "lemma": true,
 	"axiom": true, "type": true, "macro": true, "method": true, "returns": true, "params": true, "variant": true,
@@ -778,6 +778,13 @@ func (p *parser) parseFuncSpecBody(fs *FuncSpec) {
 				fs.DynCalls = map[int]string{}
 			}
 			fs.DynCalls[k] = p.parseFuncKey()
+		case "funcparam":
+			p.next()
+			pn := p.ident()
+			if fs.ParamCons == nil {
+				fs.ParamCons = map[string]string{}
+			}
+			fs.ParamCons[pn] = p.parseFuncKey()
 		case "calluse":
 			p.next()
 			callee := p.parseFuncKey()
